@@ -19,7 +19,7 @@ PYTHONPATH=$WT/src /venv/bin/python $D/mut${N}_demo.py > /tmp/cs.$$.$N.demo 2>&1
 PYTHONPATH=$WT/src /venv/bin/python -m pytest -q -p no:cacheprovider --timeout=900 --continue-on-collection-errors 2>&1 | tail -15 > /tmp/cs.$$.$N.suite
 summary=$(tail -1 /tmp/cs.$$.$N.suite)
 failed=$(grep -E "^(FAILED|ERROR)" /tmp/cs.$$.$N.suite | sed 's/ - .*//' | sort | tr '\n' ';')
-demo_out=$(head -c 600 /tmp/cs.$$.$N.demo | tr '\n"' ' .')
+demo_out=$(head -c 600 /tmp/cs.$$.$N.demo | tr '\n"\\\t' ' ./ ')
 cd /
 git -C /repo worktree remove --force $WT
 rm -f /tmp/cs.$$.$N.suite /tmp/cs.$$.$N.demo
